@@ -260,15 +260,18 @@ Lemma open_trim_spec img u : 0 < u ->
   durable (open_trim img u) = img /\ cpre (len img - len img mod u) (pending (open_trim img u)) /\
   buf (open_trim img u) = [] /\
   bufoff (open_trim img u) = len img - len img mod u /\ wf (open_trim img u) /\
-  (len img mod u = 0 -> open_trim img u = f_open img).
+  (len img mod u = 0 -> open_trim img u = f_open img) /\
+  os_view (open_trim img u) = take (len img - len img mod u) img.
 Proof.
   intros Hu. unfold open_trim. destruct (N.ltb_spec 0 (len img mod u)) as [Hr|Hr].
   - cbn [durable pending buf bufoff]. split; [reflexivity|]. split; [right; reflexivity|].
-    split; [reflexivity|]. split; [reflexivity|]. split; [|lia].
+    split; [reflexivity|]. split; [reflexivity|]. split; [|split; [lia|reflexivity]].
     unfold wf, os_view. cbn [durable pending bufoff apply_writes fold_left apply1]. rewrite len_take.
     pose proof (N.mod_le (len img) u). lia.
   - cbn [f_open durable pending buf bufoff]. split; [reflexivity|]. split; [left; reflexivity|].
-    split; [reflexivity|]. split; [lia|]. split; [apply wf_open|reflexivity].
+    split; [reflexivity|]. split; [lia|]. split; [apply wf_open|]. split; [reflexivity|].
+    unfold os_view. cbn [durable pending apply_writes fold_left]. symmetry. apply take_ge.
+    apply N.le_0_r in Hr. rewrite Hr, N.sub_0_r. apply N.le_refl.
 Qed.
 
 Lemma Forall2_length' {A B} (R : A -> B -> Prop) l1 l2 : Forall2 R l1 l2 -> length l1 = length l2.
@@ -363,8 +366,8 @@ Lemma recover_ok nv s h d im upto :
     VInv H s' (firstn (N.to_nat c') h ++ rs) (c' + N.of_nat (length rs)) /\
     (* how the hash tree of s' was obtained *)
     (let asz := len (i_ahc im) / 12 in
-     let a0 := mkAht (f_open (i_ahd im)) (f_open (i_ahc im)) asz asz 0 in
-     i_ahc im = durable (ahc s) /\
+     let a0 := mkAht (f_open (i_ahd im)) (open_trim (i_ahc im) 12) asz asz 0 in
+     (exists m, bufoff (ahc s) <= m /\ i_ahc im = take m (durable (ahc s))) /\
      exists a1, (if c' <? asz then aht_reset (c_ahtreset (s_cfg s)) a0 c' else Ok a0) = Ok a1 /\
        AInv (c_thld (s_cfg s)) a0 /\
        relink H (Nat.min upto (N.to_nat (c' + N.of_nat (length rs) - a_size a1))) (c_thld (s_cfg s))
@@ -434,12 +437,11 @@ Proof.
   assert (Tp': take ptls tx = raws h').
   { rewrite Rpos, take_add, Tc, Rh'. f_equal. exact Rsl. }
   (* the hash tree *)
-  destruct Iaht as ((A1 & A2 & A3 & A4 & A5 & A6 & A7 & A8 & A9 & A10) & A11).
+  destruct Iaht as ((A1 & A2 & A3 & A4 & A5 & A6) & A11).
   unfold aht_of in *. cbn [a_d a_c a_size a_latest a_cnt] in *.
-  assert (Eac: i_ahc im = durable (ahc s)) by (apply crash_image_nopending; auto).
+  assert (Eac: exists m, bufoff (ahc s) <= m /\ i_ahc im = take m (durable (ahc s))) by (apply CL_image; auto).
   set (ac := i_ahc im) in *. set (asz := len ac / 12).
-  assert (Hmod: len ac mod 12 = 0) by (rewrite Eac; exact A10).
-  destruct (open_trim_spec ac 12 ltac:(lia)) as (_ & _ & _ & _ & _ & O6). specialize (O6 Hmod).
+  destruct (open_trim_spec ac 12 ltac:(lia)) as (O1 & O2 & O3 & O4 & O5 & _ & O7).
   destruct (N.lt_ge_cases (len (i_ahd im)) (32 * asz)) as [Hbad|Hgood].
   { (* ahtree.OpenWith: ErrorCorruptedDigests *)
     left. split; [exact Hbad|].
@@ -449,11 +451,17 @@ Proof.
   right. split; [exact Hgood|].
   assert (Hchk: ((0 <? asz) && (len (i_ahd im) <? 32 * asz)) = false).
   { destruct (N.ltb_spec (len (i_ahd im)) (32 * asz)); [lia|apply andb_false_r]. }
-  set (a0 := mkAht (f_open (i_ahd im)) (f_open ac) asz asz 0).
+  set (a0 := mkAht (f_open (i_ahd im)) (open_trim ac 12) asz asz 0).
   assert (IA0: AInv (c_thld (s_cfg s)) a0).
   { unfold AInv, a0. cbn [a_d a_c a_size a_latest a_cnt].
-    unfold f_offset. cbn [f_open bufoff buf durable pending]. rewrite len_nil.
-    repeat split; auto; try lia; try apply wf_open; try (unfold asz; lia). }
+    split; [apply wf_open|]. split.
+    { unfold CL. rewrite O1, O3, O4. split; [reflexivity|]. split.
+      { destruct O2 as [-> | ->]; repeat constructor. }
+      split.
+      { destruct O2 as [-> | ->]; repeat constructor. cbn [pw_off]. lia. }
+      split; [lia|]. split; [exact O7|lia]. }
+    unfold f_offset. cbn [f_open bufoff buf]. rewrite len_nil, O4.
+    repeat split; try lia; unfold asz; lia. }
   assert (Ha1: exists a1, (if c' <? asz then aht_reset (c_ahtreset (s_cfg s)) a0 c' else Ok a0) = Ok a1 /\
                           AInv (c_thld (s_cfg s)) a1 /\ a_size a1 <= p').
   { destruct (N.ltb_spec c' asz).
@@ -496,10 +504,10 @@ Proof.
         exists x. split; [exact B|]. split; [exact Vx|intros _; exact Dx]. }
   (* assemble *)
   unfold recover_upto. rewrite Hpre. fold tx cm. rewrite Elogs. cbn [bind].
-  fold ac asz. rewrite Hchk. rewrite O6. fold a0.
+  fold ac asz. rewrite Hchk. fold a0.
   assert (Epb: c' + N.of_nat (length pb) = p') by (unfold p'; rewrite Rpb, map_length; reflexivity).
   rewrite Ea1. cbn [bind]. rewrite Epb. fold n. rewrite Ea2. cbn [bind].
-  destruct (open_trim_spec cm 44 ltac:(lia)) as (Q1 & Q2 & Q3 & Q4 & Q5 & _).
+  destruct (open_trim_spec cm 44 ltac:(lia)) as (Q1 & Q2 & Q3 & Q4 & Q5 & _ & _).
   eexists. exists c', rs. split; [reflexivity|].
   cbn [committed acked phase_ s_cfg txl vls cml asize].
   split; [exact Hc1|]. split; [exact Hc2|]. split; [reflexivity|]. split; [reflexivity|].
